@@ -697,4 +697,111 @@ theorem once_spin_window_reachable : ∃ s, runLog Once.step (Once.init 3) onceS
   refine ⟨_, rfl, ?_⟩
   decide
 
+
+/-! ## Follow-up C09t: clauses that were monitors only -/
+
+/-- Reachability extends along accepted logs. -/
+theorem LReachable.extend {s s' : Latch.St} (hr : LReachable s) (log : List Latch.Ev)
+    (h : runLog Latch.step s log = some s') : LReachable s' := by
+  obtain ⟨n, c, l0, h0⟩ := hr
+  refine ⟨n, c, l0 ++ log, ?_⟩
+  rw [runLog_append, h0]; exact h
+
+/-- **Released for good.**  From any reachable state, along every accepted continuation (any number
+    of further `count_down` / `wait` / `try_wait` / `arrive_and_wait` calls of any threads, in
+    particular more participants than workers) the counter never grows and a set `notified_` stays
+    set: a latch that has released its waiters releases every later waiter (with
+    `C09_latch_stays_released`: the blocking branch stays disabled) and every later `try_wait`
+    under the precondition returns `true`. -/
+theorem C09_latch_released_forever (s : Latch.St) (hr : LReachable s) (log : List Latch.Ev) :
+    ∀ s', runLog Latch.step s log = some s' →
+      s'.counter ≤ s.counter ∧ (s.notified = true → s'.notified = true) := by
+  induction log generalizing s with
+  | nil => intro s' h; simp at h; subst h; exact ⟨Int.le_refl _, id⟩
+  | cons e es ih =>
+    intro s' h
+    simp only [runLog] at h
+    cases hs : Latch.step s e with
+    | none => simp [hs] at h
+    | some s1 =>
+      simp only [hs] at h
+      obtain ⟨h1, h2⟩ := (C09_latch_stays_released s hr).1 e s1 hs
+      obtain ⟨h3, h4⟩ := ih s1 (hr.extend [e] (by simp [runLog, hs])) s' h
+      exact ⟨Int.le_trans h3 h1, fun hn => h4 (h2 hn)⟩
+
+/-- `event::occurred()` returns the flag at its (single, atomic) load — also while `set` / `reset`
+    of other threads race with it. -/
+theorem C09_event_occurred_exact (s s' : Once.St) (t r : Nat) (hpc : s.pc t = .oWant)
+    (h : Once.step s (.ret t r) = some s') : r = Once.b2n s.flag := by
+  simp only [Once.step] at h
+  split at h
+  · rw [hpc] at h
+    simp only at h
+    split at h
+    · assumption
+    · simp at h
+  · simp at h
+
+/-- **Under `reset` races: the loop of `wait_locked` is left only by a read of `true`.**  Whatever
+    `set` / `reset` calls interleave, the only step by which a thread gets past
+    `while (!event_.load()) cond_.wait(l)` is its own read of the loop condition with the flag
+    `true` at that moment (a notified waiter that finds the flag reset again re-blocks). -/
+theorem C09_event_loop_left_on_true (s s' : Once.St) (e : Once.Ev) (t : Nat) (c : Once.Ctx)
+    (h : Once.step s e = some s') (hnew : s'.pc t = .wPass c) (hold : s.pc t ≠ .wPass c) :
+    e = .evLoadL t true ∧ s.flag = true := by
+  cases e <;> simp only [Once.step] at h <;> (repeat' split at h) <;>
+    first
+    | (simp at h; done)
+    | (simp only [Option.some.injEq] at h; subst h; dsimp only at hnew
+       first
+       | (exfalso; exact hold hnew)
+       | (simp only [upd] at hnew; split at hnew <;>
+            first
+            | (exfalso; exact hold hnew)
+            | (rename_i he; subst he; simp_all [Once.wDone, Once.sDone, Once.entry])
+            | skip))
+  all_goals first
+    | (exfalso; grind [Once.wDone, Once.sDone, Once.entry, Once.popd])
+    | (exfalso; split at hnew
+       · unfold Once.popd at hnew; split at hnew <;> first | (cases hnew; done) | exact hold hnew
+       · exact hold hnew)
+
+/-- **Under `reset` races: a stand-alone `wait` returns only after this call read the flag `true`.**
+    The only steps that take a thread inside `event::wait` to its return are the fast-path load
+    that reads `true` (flag true at that moment) and the unlock after the locked loop was left
+    (`C09_event_loop_left_on_true`); a `reset` that lands after the read does not "un-release" the
+    waiter, a `reset` that lands before it keeps it waiting. -/
+theorem C09_event_wait_returns_after_true_read (s s' : Once.St) (hr : OReachable s) (e : Once.Ev) (t : Nat)
+    (h : Once.step s e = some s') (hop : s.curOp t = .wait)
+    (hnew : s'.pc t = .retn 0) (hold : s.pc t ≠ .retn 0) :
+    (e = .evLoad t true ∧ s.flag = true) ∨ (e = .slRel t ∧ s.pc t = .wPass .top) := by
+  obtain ⟨n, log, hlog⟩ := hr
+  obtain ⟨hi, _⟩ := Once.inv_of_accepted hlog
+  have hok := hi.opOk t
+  rw [hop] at hok
+  cases e <;> simp only [Once.step] at h <;> (repeat' split at h) <;>
+    first
+    | (simp at h; done)
+    | (simp only [Option.some.injEq] at h; subst h; dsimp only at hnew
+       first
+       | (exfalso; exact hold hnew)
+       | (simp only [upd] at hnew; split at hnew <;>
+            first
+            | (exfalso; exact hold hnew)
+            | (rename_i he; subst he; simp_all [Once.wDone, Once.sDone, Once.entry, Once.pcOpOk, Once.ctxOk]; done)
+            | skip))
+  all_goals first
+    | (exfalso; unfold Once.entry at hnew; split at hnew <;> cases hnew)
+    | (subst_vars; unfold Once.wDone at hnew; split at hnew
+       · right; exact ⟨rfl, by assumption⟩
+       · cases hnew)
+    | (exfalso; subst_vars; simp_all [Once.pcOpOk, Once.ctxOk]; done)
+    | (exfalso; subst_vars; simp only [*, Once.pcOpOk] at hok; unfold Once.ctxOk at hok
+       split at hok <;> simp at hok)
+    | (subst_vars; grind [Once.wDone, Once.sDone, Once.entry, Once.pcOpOk, Once.ctxOk, Once.isCall])
+    | (exfalso; grind [Once.wDone, Once.sDone, Once.entry, Once.popd, Once.pcOpOk, Once.ctxOk, Once.isCall])
+    | (exfalso; split at hnew
+       · unfold Once.popd at hnew; split at hnew <;> first | (cases hnew; done) | exact hold hnew
+       · exact hold hnew)
+
 end PikaVerif.C09
